@@ -242,8 +242,19 @@ def _collect(ctx, dom, results, mk_sample):
             ctx.fail(f["klass"], f["what"], f["case"], domain=dom)
 
 
+def deductive(ctx):
+    """engine D: State.container_ndim_all -- the effective container dimension of a field is the user's (default 1) plus the
+    inner dimension, computed on a deep copy of the user's dict -- contracts/container_ndim.py.  Which elements become jobs
+    (input_shape / flatten / map_splits) is bounded only."""
+    from contracts import container_ndim as CN
+    from pyvc.verify import verify, summarize
+
+    summarize(ctx, verify(ctx, CN.contract()))
+
+
 def run(ctx):
     try:
+        deductive(ctx)
         _run(ctx)
     finally:
         H.close_pool()
